@@ -273,6 +273,28 @@ def run_check(prop, tier, seed):
         if os.environ.get('VERIF_VERBOSE'):
             log('  group %-28s jobs=%-5d paths=%-7d cpu=%.0fs solver=%.0fs' % (g, d['jobs'], d['paths'], d['wall_s'], d['solver_s']))
 
+    # cross-checks (thorough): a sample of jobs is re-run with other solvers and without merging;
+    # the per-assertion verdicts must agree, anything else is inconclusive
+    cross = {}
+    if tier == 'thorough' and not fatal and not os.environ.get('VERIF_NO_CROSS'):
+        cheap = sorted([r for r in results if not r.get('inconclusive')], key=lambda r: r.get('wall_s', 0))
+        sample = [j for j in jobs if j['id'] in {r['id'] for r in cheap[:int(os.environ.get('VERIF_CROSS_N', '32'))]}]
+        def verdicts(rs):
+            return {r['id']: {a: (st['reached'] > 0, st['violated'] > 0) for a, st in r.get('asserts', {}).items()} for r in rs}
+        base = verdicts([byid[j['id']] for j in sample])
+        for label, xflags, xjobs in (('z3-new', ['-solver', 'z3-new'], sample), ('cvc5', ['-solver', 'cvc5'], sample[:12]),
+                                     ('no-merge', ['-nomerge'], sample[:16])):
+            xr, xf = run_engine(work, xjobs, flags + xflags, timeout=1800, tag='cross_' + label.replace('-', ''))
+            if xf:
+                cross[label] = dict(jobs=len(xjobs), status='not completed: ' + '; '.join(xf)[:200])
+                continue
+            xv = verdicts(xr)
+            bad = [jid for jid in xv if xv[jid] != base.get(jid) and not next((r for r in xr if r['id'] == jid), {}).get('inconclusive')]
+            unk = [r['id'] for r in xr if r.get('inconclusive')]
+            cross[label] = dict(jobs=len(xjobs), agree=len(xv) - len(bad) - len(unk), disagree=bad[:5], inconclusive_there=len(unk))
+            if bad:
+                inconcl.append('cross-check %s disagrees with z3 on %s' % (label, bad[:3]))
+
     # vacuity: every expected assertion must have been reached on a feasible path
     for g in groups:
         for a in g.get('asserts', []):
@@ -455,6 +477,7 @@ def run_check(prop, tier, seed):
             counterexamples_replayed=len(cands),
             panic_paths=dict(total=agg['panics'], sites=panic_sites, counted_as_violation=bool(spec.get('panics_violate', False))),
             partition_check=partition,
+            cross_checks=cross,
             group_stats=gstats,
             known_findings_seen=[k.get('what') for k, _ in known_seen],
             inconclusive=inconcl[:20],
